@@ -290,7 +290,7 @@ func jsonTagCases() []*Case {
 		root := &dsl.Message{Name: "Root", Fields: []*dsl.Field{
 			{Name: "X", Num: 1, T: dsl.String, JSONTag: dsl.S("alpha,omitempty")},
 			{Name: "my_other", Num: 2, T: dsl.Int32, JSONTag: dsl.S("beta,string")},
-			{Name: "Third", Num: 3, T: dsl.Bool, JSONTag: dsl.S("gamma,omitempty,string")},
+			{Name: "Third", Num: 3, T: dsl.Bool, JSONTag: dsl.S("gamma,omitempty,inline")},
 		}}
 		out = append(out, &Case{Label: "F1/jsontag/multi", Family: "F1", Tags: map[string]string{"card": "single", "vt": "jsontag", "class": "scalar", "pos": "P0"}, File: newFile(root), Cfg: BaseConfig("Root")})
 	}
